@@ -229,7 +229,7 @@ IntTy == <<105, 110, 116>>
 StringTy == <<115, 116, 114, 105, 110, 103>>
 BoolTy == <<98, 111, 111, 108>>
 (* int argument; verbs d x X o b c q v (others: bad verb) ; %c/%q only for printable ASCII other than ' and \ *)
-SprintfInt(f, n) ==
+FmtOneInt(f, n) ==
   LET sp == ParseFmt(f) v == sp.verb IN
     CASE v \in {100, 118} -> FmtIntBase(n, sp, 10, FALSE)
       [] v = 120 -> FmtIntBase(n, sp, 16, FALSE)
@@ -240,26 +240,43 @@ SprintfInt(f, n) ==
       [] v = 113 -> PadTo(<<39>> \o EncodeRune(n) \o <<39>>, sp)
       [] OTHER   -> BadVerb(sp, IntTy, IntText(n, 10))
 HexBytes(s) == Flat([i \in 1..Len(s) |-> <<Hex(s[i] \div 16), Hex(s[i] % 16)>>])
-SprintfStr(f, s) ==
+FmtOneStr(f, s) ==
   LET sp == ParseFmt(f) v == sp.verb IN
     CASE v \in {115, 118} -> PadTo(s, sp)
       [] v = 113 -> PadTo(<<34>> \o QuoteBody(s, sp.plus) \o <<34>>, sp)
       [] v = 120 -> PadTo(HexBytes(s), sp)
       [] OTHER   -> BadVerb(sp, StringTy, s)
-SprintfBool(f, b) ==
+FmtOneBool(f, b) ==
   LET sp == ParseFmt(f) v == sp.verb  t == IF b THEN TrueTxt ELSE FalseTxt IN
     CASE v \in {116, 118} -> PadTo(t, sp)
       [] OTHER   -> BadVerb(sp, BoolTy, t)
-(* claimed domain of the three: flags only where Go's meaning is modelled *)
+(* a format string: literal text, %% and exactly ONE verb specification *)
+IsFlagOrDigit(b) == b \in {45, 43, 48} \/ IsDigit(b)
+SpecLen(f) == CHOOSE n \in 2..Len(f) : ~IsFlagOrDigit(f[n]) /\ \A k \in 2..(n - 1) : IsFlagOrDigit(f[k])    \* f[1] = "%"
+RECURSIVE VerbSpecs(_)        \* the verb specifications of a format, in order
+VerbSpecs(f) == IF f = <<>> THEN <<>>
+                ELSE IF f[1] # 37 THEN VerbSpecs(Tail(f))
+                ELSE IF Len(f) >= 2 /\ f[2] = 37 THEN VerbSpecs(Drop(f, 2))
+                ELSE IF Len(f) = 1 THEN << <<37>> >>
+                ELSE <<Take(f, SpecLen(f))>> \o VerbSpecs(Drop(f, SpecLen(f)))
+FmtOne(spec, kind, x) == CASE kind = "i" -> FmtOneInt(spec, x) [] kind = "s" -> FmtOneStr(spec, x) [] kind = "b" -> FmtOneBool(spec, x)
+RECURSIVE Sprintf1(_, _, _)   \* fmt.Sprintf(f, x) for a format with one verb
+Sprintf1(f, kind, x) ==
+  IF f = <<>> THEN <<>>
+  ELSE IF f[1] # 37 THEN <<f[1]>> \o Sprintf1(Tail(f), kind, x)
+  ELSE IF f[2] = 37 THEN <<37>> \o Sprintf1(Drop(f, 2), kind, x)
+  ELSE FmtOne(Take(f, SpecLen(f)), kind, x) \o Sprintf1(Drop(f, SpecLen(f)), kind, x)
+(* claimed domain: one complete verb, flags only where Go's meaning is modelled *)
 FmtWF(f, kind, x) ==
-  LET sp == ParseFmt(f) v == sp.verb
-      good == CASE kind = "i" -> v \in {100, 118, 120, 88, 111, 98, 99, 113}
-                [] kind = "s" -> v \in {115, 118, 113, 120}
-                [] kind = "b" -> v \in {116, 118}
-  IN /\ (~good => (~sp.minus /\ ~sp.plus /\ ~sp.zero /\ sp.wid = 0))          \* bad verbs: no flags
-     /\ (sp.zero => (kind = "i" /\ v \in {100, 120, 88, 111, 98}))
-     /\ (sp.plus => ((kind = "i" /\ v \in {100, 120, 88, 111, 98}) \/ (kind = "s" /\ v = 113)))
-     /\ ((kind = "i" /\ v \in {99, 113}) => ((x >= 32 /\ x < 127 /\ x \notin {39, 92}) \/ x = 233))
+  /\ Len(VerbSpecs(f)) = 1 /\ Len(VerbSpecs(f)[1]) >= 2
+  /\ LET sp == ParseFmt(VerbSpecs(f)[1]) v == sp.verb
+         good == CASE kind = "i" -> v \in {100, 118, 120, 88, 111, 98, 99, 113}
+                   [] kind = "s" -> v \in {115, 118, 113, 120}
+                   [] kind = "b" -> v \in {116, 118}
+     IN /\ (~good => (~sp.minus /\ ~sp.plus /\ ~sp.zero /\ sp.wid = 0))          \* bad verbs: no flags
+        /\ (sp.zero => (kind = "i" /\ v \in {100, 120, 88, 111, 98}))
+        /\ (sp.plus => ((kind = "i" /\ v \in {100, 120, 88, 111, 98}) \/ (kind = "s" /\ v = 113)))
+        /\ ((kind = "i" /\ v \in {99, 113}) => ((x >= 32 /\ x < 127 /\ x \notin {39, 92}) \/ x = 233))
 
 (* ---------------------------------------------------------------- encoding/json text of scalar and list values *)
 JsonByte(b) ==
